@@ -505,6 +505,62 @@ impl<B: Borrow<OrderingSender> + Unpin> Stream for OrderedStream<B> {
     }
 }
 
+/// Test-only accessors for the verification harness (feature `ipa-verif`): each function performs
+/// exactly one of the shared-state accesses of `next_op` / `Send::poll` / `Close::poll` /
+/// `take_next`, so that a harness can replay arbitrary interleavings of these accesses on the real
+/// `next` counter, the real `Waiting` shards and the real `State`. Nothing here is compiled
+/// without `--features ipa-verif` in a test build.
+#[cfg(all(test, feature = "ipa-verif"))]
+impl OrderingSender {
+    /// `self.next.load(Acquire)`
+    pub(super) fn verif_next_load(&self) -> usize {
+        self.next.load(Acquire)
+    }
+
+    /// `self.next.fetch_add(1, AcqRel)`
+    pub(super) fn verif_next_fetch_add(&self) -> usize {
+        self.next.fetch_add(1, AcqRel)
+    }
+
+    /// `self.waiting.add(curr, i, w).is_ok()`
+    pub(super) fn verif_waiting_add(&self, curr: usize, i: usize, w: &Waker) -> bool {
+        self.waiting.add(curr, i, w).is_ok()
+    }
+
+    /// `self.waiting.wake(i)`
+    pub(super) fn verif_waiting_wake(&self, i: usize) {
+        self.waiting.wake(i);
+    }
+
+    /// The critical section of `Send::poll`: the closure it passes to `next_op`, under the state lock.
+    pub(super) fn verif_state_write<M: Message>(&self, m: &M, cx: &Context<'_>) -> Poll<()> {
+        let b = &mut self.state.lock().unwrap();
+        assert!(!b.is_closed(), "writing on a closed stream");
+        b.write(m, cx)
+    }
+
+    /// The critical section of `Close::poll`.
+    pub(super) fn verif_state_close(&self) {
+        self.state.lock().unwrap().close();
+    }
+
+    /// The first part of `take_next`: `b.take(cx)` and `b.is_closed()` under the state lock.
+    pub(super) fn verif_state_take(&self, cx: &Context<'_>) -> (Poll<Vec<u8>>, bool) {
+        let mut b = self.state.lock().unwrap();
+        let r = b.take(cx);
+        (r, b.is_closed())
+    }
+
+    /// `woken_at` of every shard (read-only).
+    pub(super) fn verif_woken_at(&self) -> Vec<usize> {
+        self.waiting
+            .shards
+            .iter()
+            .map(|s| s.lock().unwrap().woken_at)
+            .collect()
+    }
+}
+
 #[cfg(all(test, any(unit_test, feature = "shuttle")))]
 mod test {
     use std::{
